@@ -61,7 +61,7 @@ func run(c *vf.Ctx) {
 		x.Report(n + "/")
 	}
 	c.RequireFeature("attack_rejected", "control_accepted", "attack:same-block", "attack:same-block-after-revision", "attack:same-tx", "attack:next-block-stale", "attack:next-block-updated", "attack:next-block-ephemeral", "attack:next-block-revised-form", "attack:same-block-alias", "attack:reorg",
-		"kind:sc-v1addr", "kind:sc-v2addr", "kind:sc-nosig", "kind:sf-nosig", "kind:sf", "kind:fc", "kind:v2fc", "kind:ephemeral")
+		"kind:sc-v1addr", "kind:sc-v2addr", "kind:sc-nosig", "kind:sf-nosig", "kind:sf", "kind:sf-devaddr", "kind:fc", "kind:v2fc", "kind:ephemeral")
 	c.Assume("every attack block is built by the harness' own builder: correct parent, timestamp, commitment/Merkle root, miner payout and nonce; the control experiment (same block without the second use) must be accepted, so an attack cannot be rejected merely for being badly sealed")
 }
 
@@ -150,6 +150,26 @@ func attacks(c *vf.Ctx, x *chain.Explorer, w *chain.World, path []string) {
 			us = append(us, useGen{"v2sfspend", func(w *chain.World, tag byte) (chain.Use, bool) { return w.UseV2SF(p, tag), true }, v2app})
 		}
 		targets = append(targets, target{"sf", us, nil})
+	}
+	// a siafund output still held by the OLD developer address: from the dev-address hardfork on it may also be spent by
+	// revealing the unlock conditions of the NEW address (a special case on the v1 siafund path)
+	if p, ok := bc.PickSF(func(cl int) bool { return cl == chain.AddrV1b }); ok && w.Net.HardforkDevAddr.OldAddress == w.Keys.Addr(chain.AddrV1b) {
+		var us []useGen
+		if v1ok {
+			us = append(us, useGen{"v1sfspend", func(w *chain.World, tag byte) (chain.Use, bool) { return w.UseV1SF(p, tag), true }, v1app})
+			us = append(us, useGen{"v1sfspend-devaddr-override", func(w *chain.World, tag byte) (chain.Use, bool) {
+				u := w.UseV1SF(p, tag)
+				u.V1.SiafundInputs[0].UnlockConditions = w.Keys.StdUC(0) // the new developer address' conditions
+				u.V1.Signatures = nil
+				w.SignV1Whole(u.V1)
+				u.Name = "v1sfspend-devaddr-override"
+				return u, true
+			}, func(n *consensus.Network, hh uint64) bool { return v1app(n, hh) && hh >= n.HardforkDevAddr.Height }})
+		}
+		if v2ok {
+			us = append(us, useGen{"v2sfspend", func(w *chain.World, tag byte) (chain.Use, bool) { return w.UseV2SF(p, tag), true }, v2app})
+		}
+		targets = append(targets, target{"sf-devaddr", us, nil})
 	}
 	// v1 contracts: every live contract (few)
 	v1Uses := func(fce types.FileContractElement, fc types.FileContract) []useGen {
